@@ -1,0 +1,17 @@
+//go:build verif
+
+package builder
+
+// Verification hooks (build tag `verif` only): expose the unexported hash-bit slicer and constants so
+// that they can be checked against the formal model. Not part of the public API.
+
+// VerifSlice runs hashBits(hash).Slice(offset, width).
+func VerifSlice(hash []byte, offset, width int) (int, error) {
+	return hashBits(hash).Slice(offset, width)
+}
+
+// VerifShardSplitThreshold returns the unexported shardSplitThreshold constant.
+func VerifShardSplitThreshold() int { return shardSplitThreshold }
+
+// VerifDefaultShardWidth returns the unexported defaultShardWidth constant.
+func VerifDefaultShardWidth() int { return defaultShardWidth }
